@@ -224,6 +224,12 @@ func checkC07(r *core.Run) {
 							r.Fn(h)
 							return []flow.Tag{"-mutate", "rebind", "setxid"}
 						}
+						// a constructor (parent, xid) that answers a fresh context with that xid bound, handed the
+						// caller's xid (GetXID(ctx), or a helper answering it whenever ctx holds a transaction)
+						if h := w.Info(callee); h != nil && h.Pkg.PkgPath == pTM && len(c.Args) == 2 && isObj(pkg.TypesInfo, c.Args[0], ctxParam) && scopeContextCtor(w, h) && carriesCallerXid(w, with, c.Args[1], ctxParam) {
+							r.Fn(h)
+							return []flow.Tag{"-mutate", "rebind", "setxid"}
+						}
 					}
 				}
 				return nil
@@ -663,7 +669,13 @@ func c07RPC(r *core.Run) {
 				switch x := n.(type) {
 				case *ast.CallExpr:
 					callee := core.Callee(info, x)
-					if core.IsPkgFunc(callee, pTM, "SetXID") && len(x.Args) == 2 {
+					// (tm.SetXID(fresh, xid), or a constructor of tm verified to answer InitSeataContext(parent) with
+					// its xid parameter bound)
+					ctor := false
+					if h := w.Info(callee); h != nil && h.Pkg.PkgPath == pTM && len(x.Args) == 2 && !core.IsPkgFunc(callee, pTM, "SetXID") && scopeContextCtor(w, h) {
+						ctor = true
+					}
+					if (core.IsPkgFunc(callee, pTM, "SetXID") || ctor) && len(x.Args) == 2 {
 						nRead++
 						r.Fn(f)
 						r.Sites++
@@ -716,7 +728,7 @@ func c07RPC(r *core.Run) {
 						}
 						// fresh context: the reaching definition of the context argument is tm.InitSeataContext(...)
 						def := reachingCallee(w, f, x, 0)
-						r.Check(core.IsPkgFunc(def, pTM, "InitSeataContext"), "C07.rpc", core.ShortKey(f.Obj)+" : callee context is fresh", w.Pos(x.Pos()), "tm.InitSeataContext(...) result: role is not Launcher",
+						r.Check(ctor || core.IsPkgFunc(def, pTM, "InitSeataContext"), "C07.rpc", core.ShortKey(f.Obj)+" : callee context is fresh", w.Pos(x.Pos()), "tm.InitSeataContext(...) result: role is not Launcher",
 							"the xid is installed into a context whose value at this point comes from "+core.ShortKey(def)+" rather than a fresh tm.InitSeataContext(...): the callee could inherit the Launcher role")
 					}
 					// any other call that takes an xid key constant together with the xid: which semantics?
@@ -982,6 +994,93 @@ func scopeContextHelper(w *core.World, h *core.FuncInfo) bool {
 		}
 	}
 	return true
+}
+
+// scopeContextCtor: h(parent, xid) answers on every return a context made by InitSeataContext(parent) on which
+// SetXID(.., xid) was called with its own xid parameter.
+func scopeContextCtor(w *core.World, h *core.FuncInfo) bool {
+	ps := paramObjs(h)
+	if len(ps) != 2 || h.Decl.Body == nil {
+		return false
+	}
+	parent, xid := ps[0], ps[1]
+	info := h.Pkg.TypesInfo
+	sp := &flow.Spec{W: w, Depth: 0, Inline: -1,
+		AssignTags: func(pkg *packages.Package, as *ast.AssignStmt) []flow.Tag {
+			if len(as.Lhs) != 1 || len(as.Rhs) != 1 {
+				return nil
+			}
+			o := core.ObjOf(pkg.TypesInfo, as.Lhs[0])
+			if o == nil {
+				return nil
+			}
+			if c, ok := ast.Unparen(as.Rhs[0]).(*ast.CallExpr); ok && core.IsPkgFunc(core.Callee(pkg.TypesInfo, c), pTM, "InitSeataContext") && len(c.Args) == 1 && isObj(pkg.TypesInfo, c.Args[0], parent) {
+				return []flow.Tag{"fresh:" + o.Name(), "-bound:" + o.Name()}
+			}
+			return []flow.Tag{"-fresh:" + o.Name(), "-bound:" + o.Name()}
+		},
+		Classify: func(pkg *packages.Package, call *ast.CallExpr, callee *types.Func) []flow.Tag {
+			if core.IsPkgFunc(callee, pTM, "SetXID") && len(call.Args) == 2 && isObj(pkg.TypesInfo, call.Args[1], xid) {
+				if o := core.ObjOf(pkg.TypesInfo, call.Args[0]); o != nil {
+					return []flow.Tag{"bound:" + o.Name()}
+				}
+			}
+			return nil
+		}}
+	res := sp.Analyze(h)
+	if len(res.Exits) == 0 {
+		return false
+	}
+	for _, ex := range res.Exits {
+		if len(ex.Results) != 1 {
+			return false
+		}
+		o := core.ObjOf(info, ex.Results[0])
+		if o == nil || !ex.St.Has("fresh:"+o.Name()) || !ex.St.Has("bound:"+o.Name()) {
+			return false
+		}
+	}
+	return true
+}
+
+// carriesCallerXid: e is GetXID(ctx), or h(ctx) with h answering GetXID(its parameter) on every return where
+// IsGlobalTx(parameter) is known true.
+func carriesCallerXid(w *core.World, f *core.FuncInfo, e ast.Expr, ctxParam types.Object) bool {
+	info := f.Pkg.TypesInfo
+	c, ok := ast.Unparen(e).(*ast.CallExpr)
+	if !ok || len(c.Args) != 1 || !isObj(info, c.Args[0], ctxParam) {
+		return false
+	}
+	callee := core.Callee(info, c)
+	if core.IsPkgFunc(callee, pTM, "GetXID") {
+		return true
+	}
+	h := w.Info(callee)
+	if h == nil || h.Pkg.PkgPath != pTM || h.Decl.Body == nil || len(paramObjs(h)) != 1 {
+		return false
+	}
+	parent := paramObjs(h)[0]
+	hinfo := h.Pkg.TypesInfo
+	sp := &flow.Spec{W: w, Depth: 0, Inline: -1, Split: []flow.Tag{"true:isglobal", "false:isglobal"},
+		Classify: func(pkg *packages.Package, call *ast.CallExpr, callee *types.Func) []flow.Tag {
+			if core.IsPkgFunc(callee, pTM, "IsGlobalTx") && len(call.Args) == 1 && isObj(pkg.TypesInfo, call.Args[0], parent) {
+				return []flow.Tag{"isglobal"}
+			}
+			return nil
+		}}
+	res := sp.Analyze(h)
+	n := 0
+	for _, ex := range res.Exits {
+		if ex.St.Has("false:isglobal") {
+			continue
+		}
+		n++
+		if len(ex.Results) != 1 || !strings.Contains(origin(h, ex.Results[0], 3), "pkg/tm.GetXID(param:"+parent.Name()+")") {
+			return false
+		}
+	}
+	_ = hinfo
+	return n > 0
 }
 
 // c07XidAxiom: IsGlobalTx(ctx) implies GetXID(ctx) != "" — IsGlobalTx answers true only as `<variable>.Xid != ""`,
